@@ -38,7 +38,7 @@ func TestSharedOTLPReceiverProbe(t *testing.T) {
 	if vt.ReplayPath() != "" {
 		t.Skip("generated probe, no replay")
 	}
-	s := ProbeScript{Attempts: 40, Topo: topo.Topology{
+	s := ProbeScript{Attempts: 20, Topo: topo.Topology{
 		Processors: []string{"tproc/p0", "tproc/p1"},
 		Exporters:  []string{"texp/e0", "texp/e1"},
 		Pipelines: []topo.Pipeline{
